@@ -11,6 +11,7 @@ import (
 	"regexp/syntax"
 	"runtime/debug"
 	"sort"
+	"strings"
 	"syscall"
 	"time"
 
@@ -37,6 +38,8 @@ type Cfg struct {
 // custom: the constraints a custom schema puts on top of the struct tags ("any subset of fields indexed / unique").
 //
 //	1: A unique   2: U not indexed   3: V indexed   4: F unique, E not indexed   5: V unique, Z not indexed
+//	6: Z unique and LOWER (a normalisation the struct tag does not have: the trace header then carries the
+//	   canonicalisation table of Z, see header())
 func custom(k int) map[string]sod.Constraints {
 	switch k {
 	case 1:
@@ -49,6 +52,8 @@ func custom(k int) map[string]sod.Constraints {
 		return map[string]sod.Constraints{"F": {Index: true, Unique: true}, "E": {}}
 	case 5:
 		return map[string]sod.Constraints{"V": {Index: true, Unique: true}, "Z": {}}
+	case 6:
+		return map[string]sod.Constraints{"Z": {Index: true, Unique: true, Lower: true}}
 	}
 	return nil
 }
@@ -81,6 +86,7 @@ type Op struct {
 	Create bool       `json:"create,omitempty"`
 	Commit bool       `json:"commit,omitempty"`
 	H      int        `json:"h,omitempty"`
+	From   int        `json:"from,omitempty"` // derive: the kept search value that is refined (And / Or / Operation) into handle H
 	Rev    bool       `json:"rev,omitempty"`
 	Lim    int        `json:"lim,omitempty"` // -1 = no Limit call
 	Light  bool       `json:"light,omitempty"`
@@ -200,6 +206,7 @@ type Runner struct {
 	used    map[string]map[int]bool // field -> codes used in the test (for probe choice)
 	qf      []string
 	hands   map[int]*sod.Search
+	handQ   map[int][]Cmp // the whole chain each kept search value stands for
 	nev     int
 	lastMsg string
 	xqs     [][]Cmp
@@ -387,6 +394,7 @@ func (r *Runner) open(create bool) string {
 	sod.LowercaseNames = r.cfg.Lc
 	r.db = sod.Open(r.root)
 	r.hands = map[int]*sod.Search{}
+	r.handQ = map[int][]Cmp{}
 	r.lastMsg = ""
 	c := "ok"
 	if create {
@@ -536,12 +544,24 @@ func (r *Runner) header(createClass string) ev {
 			if c.Unique {
 				d["uq"] = 1
 			}
+			if c.Lower {
+				d["cn"] = "lower"
+			}
 		}
 		fields[f] = d
 	}
-	return ev{"ev": "hdr", "id": r.t.ID, "c": createClass, "cfg": r.cfg, "schema": fields,
+	h := ev{"ev": "hdr", "id": r.t.ID, "c": createClass, "cfg": r.cfg, "schema": fields,
 		"tr":  ev{"V": trVCodes(), "W": [][]int{{caseLower.encode(trWFrom), caseLower.encode(trWTo)}}},
 		"inv": ev{"V": []int{idxInt(uniV, invV)}, "W": []int{caseLower.encode(invW)}}}
+	if custom(r.cfg.Cust)["Z"].Lower {
+		// Z is a plain string field (code = rank in uniZ): its canonicalisation is a table, code -> code of the lower-cased value
+		canon := make([]int, len(uniZ))
+		for i, v := range uniZ {
+			canon[i] = idxStr(uniZ, strings.ToLower(v))
+		}
+		h["canon"] = ev{"Z": canon}
+	}
+	return h
 }
 
 func trVCodes() [][]int {
@@ -643,6 +663,8 @@ func (r *Runner) step(op *Op) {
 		r.xqs = nil
 	case "eval":
 		r.eval(op)
+	case "derive":
+		r.derive(op)
 	case "collect":
 		r.collect(op)
 	case "mutate":
@@ -890,7 +912,7 @@ func (r *Runner) dropOp(op *Op) {
 			cc = "aux-" + xc
 		}
 	}
-	r.hands = map[int]*sod.Search{}
+	r.hands, r.handQ = map[int]*sod.Search{}, map[int][]Cmp{}
 	r.recs, r.recIdx = []Vals{}, map[string]int{}
 	dir := r.walk()
 	e := ev{"ev": "drop", "c": dc, "probe": probe, "cc": cc, "cfg": r.cfg, "dir": dir, "recs": r.recs}
@@ -1039,9 +1061,40 @@ func (r *Runner) delsearch(op *Op) {
 	r.after(op, c)
 }
 
+// derive refines a KEPT search value with one more comparison into a new handle; the kept one goes on being used
+// (And / Or / Operation give a new search value and leave their receiver alone; Reverse and Limit are settings OF their
+// receiver by design and are not called on a kept value).
+func (r *Runner) derive(op *Op) {
+	parent := r.hands[op.From]
+	if parent == nil || len(op.Q) != 1 {
+		panic("derive: unknown parent handle or not exactly one comparison")
+	}
+	c := op.Q[0]
+	var val interface{}
+	o := c.Op
+	if o == "~=" || o == "~!" {
+		val, o = c.Pat, "~="
+	} else {
+		val = probeValue(c.F, c.P, c.Ptype)
+	}
+	var s *sod.Search
+	switch c.Conn {
+	case "and":
+		s = parent.And(Path[c.F], o, val)
+	case "or":
+		s = parent.Or(Path[c.F], o, val)
+	default:
+		s = parent.Operation(c.Conn, Path[c.F], o, val)
+	}
+	full := append(append([]Cmp{}, r.handQ[op.From]...), c)
+	r.hands[op.H], r.handQ[op.H] = s, full
+	r.emit(ev{"ev": "derive", "h": op.H, "from": op.From, "q": qjson(full), "c": classify(s.Err()), "len": s.Len()})
+}
+
 func (r *Runner) eval(op *Op) {
 	s := r.runQuery(op.Q)
 	r.hands[op.H] = s
+	r.handQ[op.H] = op.Q
 	r.emit(ev{"ev": "eval", "h": op.H, "q": qjson(op.Q), "c": classify(s.Err()), "len": s.Len()})
 }
 
